@@ -194,6 +194,10 @@ def pair_cases(draw, tier):
     # one case in four is one of the repository's own sample configurations (scaled down), the others are generated
     A = draw(st.one_of(cases(tier), cases(tier), cases(tier), sample_cases()))
     kind = draw(st.sampled_from(["independent", "related", "related", "none"]))
+    if kind != "related" and any(isinstance(v, dict) and "MarketShare" in str(v.get("class")) for v in A["config"].values()) and draw(st.integers(0, 3)) > 0:
+        # agents that read executed volumes of several markets: state keyed by (market id, time) left behind by an earlier run shows
+        # only when that run shared the ids, so three of four such cases get a related earlier run
+        kind = "related"
     if kind == "none":
         return {"A": A, "B": None, "related": False}
     if kind == "independent":
@@ -212,6 +216,10 @@ def pair_cases(draw, tier):
         else:
             cfg["simulation"].pop("fundamentalCorrelations", None)
     B["seed"] = draw(st.integers(0, 2**31 - 1))
+    if draw(st.booleans()):
+        # the same seed too: every agent draws the same parameters as in A, only the markets differ -- whatever an earlier run leaves
+        # behind under (ids, parameters) is then found again by A
+        B["seed"] = A["seed"]
     return {"A": A, "B": B, "related": True}
 
 
